@@ -136,6 +136,14 @@ def build_call(e):
         full = lambda: OPS[op](a, b)                                    # noqa: E731
         one = lambda i, jx: OPS[op](as_[i - 1], bs[jx - 1])             # noqa: E731
         operands = [a, b]
+    elif op == "exp-vector":
+        x = inject(lc, left_ids(m))
+        xs = [inject(lc, [k]) for k in left_ids(m)]
+        thv = [0.3 + 0.45 * i for i in range(n)]
+        thv_arg = thv if m % 2 else np.array(thv)                       # list and ndarray forms
+        full = lambda: x.exp(thv_arg)                                   # noqa: E731
+        one = lambda i, jx: xs[i - 1].exp(thv[jx - 1])                  # noqa: E731
+        operands = [x, thv_arg]
     elif op == "interp":
         x = inject(lc, [7])
         svec = [0.1 + 0.2 * i for i in range(n)]
@@ -146,11 +154,12 @@ def build_call(e):
             # a destination in the opposite hemisphere (negative inner product): the arc then
             # depends on `shortest`
             far = inject(lc, [200])
-            far.data[0] = -far.data[0]
+            if float(np.dot(np.ravel(far.data[0]), np.ravel(x.data[0]))) > 0:
+                far.data[0] = -far.data[0]
             kw["dest"] = far
         if "shortest" in opt:
             kw["shortest"] = True
-            if "dest" not in opt:
+            if "dest" not in opt and np.ravel(x.data[0])[0] > 0:
                 x.data[0] = -x.data[0]
         full = lambda: x.interp(svec, **kw)                             # noqa: E731
         one = lambda i, jx: x.interp(svec[jx - 1], **kw)                # noqa: E731
@@ -261,7 +270,7 @@ def spread_case(j, e):
     op, L, R, out = e["op"], e["l"], e["r"], e["out"]
     lc, m = L["c"], L["n"]
     opt = R.get("opt", "")
-    if op in OPS or op == "interp" or op.startswith("->") or m < 2 or out["doc"]["k"] in ("unspec", "raise"):
+    if op in OPS or op in ("interp", "exp-vector") or op.startswith("->") or m < 2 or out["doc"]["k"] in ("unspec", "raise"):
         return
     vals = spread(lc, m)
     if vals is None:
